@@ -29,6 +29,7 @@ func init() {
 		ruleL5(c, "C11.V14")
 		ruleKind(c, "C11.V12")
 		ruleNlinkFloor(c, "C11.V13")
+		ruleNilUse(c, "C11.V15")
 	}
 }
 
